@@ -89,11 +89,19 @@ for _k in ('S1', 'S4', 'S7'):
 # S1 / S7 with the main-loop task being cancelled instead of an orderly shutdown
 for _k in ('S1', 'S7'):
     SCENARIOS[_k + 'm'] = dict(SCENARIOS[_k], alphabet=[('m' if a == 's' else a) for a in SCENARIOS[_k]['alphabet']], phase2=False)
+# the caller of Interest 0 does something else for 4 ms before it awaits the result (the second Interest's timer lets the clock stop
+# at the common deadline)
+SCENARIOS['S5d'] = {
+    'interests': [{'name': '/a', 'cbp': False, 'lifetime': 10, 'await_delay': 4}, {'name': '/b', 'cbp': False, 'lifetime': 10}],
+    'packets': {'dA': {'data': '/a'}, 'n0': {'nack': '/a', 'reason': 150}, 'dB': {'data': '/b'}},
+    'prefix': ['x0', 'x1'],
+    'alphabet': ['dA', 'n0', 'dB', 't', 't', 't'],
+}
 # S2 with the Data packets arriving inside link-layer envelopes
 SCENARIOS['S2w'] = dict(SCENARIOS['S2'], packets={k: (dict(v, lp=True) if 'data' in v else v) for k, v in SCENARIOS['S2']['packets'].items()})
 
-LEN = {'quick': {'S1': 5, 'S2': 5, 'S3': 5, 'S3b': 5, 'S4': 5, 'S5': 5, 'S7': 5, 'S1p': 4, 'S4p': 4, 'S7p': 4, 'S2w': 4, 'S1m': 4, 'S7m': 4},
-       'thorough': {'S1': 6, 'S2': 6, 'S3': 6, 'S3b': 6, 'S4': 6, 'S5': 6, 'S7': 6, 'S1p': 5, 'S4p': 5, 'S7p': 5, 'S2w': 5, 'S1m': 5, 'S7m': 5}}
+LEN = {'quick': {'S1': 5, 'S2': 5, 'S3': 5, 'S3b': 5, 'S4': 5, 'S5': 5, 'S7': 5, 'S1p': 4, 'S4p': 4, 'S7p': 4, 'S2w': 4, 'S1m': 4, 'S7m': 4, 'S5d': 4},
+       'thorough': {'S1': 6, 'S2': 6, 'S3': 6, 'S3b': 6, 'S4': 6, 'S5': 6, 'S7': 6, 'S1p': 5, 'S4p': 5, 'S7p': 5, 'S2w': 5, 'S1m': 5, 'S7m': 5, 'S5d': 5}}
 DEV = {'quick': 1, 'thorough': 2}
 
 
@@ -255,6 +263,10 @@ class PitScenario:
             name = name + [enc.Component.from_bytes(bytes.fromhex(it['digest']), enc.Component.TYPE_IMPLICIT_SHA256)]
         out = None
         try:
+            if it.get('await_delay') and self.fe.name == 'legacy':
+                # express_interest is a coroutine function: nothing happens before it is awaited, so for the legacy front-end
+                # "express, do something else, then await" is the same as expressing later
+                await asyncio.sleep(it['await_delay'] / 1000)
             self.trace.append(('expressed', i, self.loop.us))
             if self.b.spec.get('shared_param'):
                 # the application keeps one InterestParam object and adjusts it before every express()
@@ -269,7 +281,7 @@ class PitScenario:
                 coro = self.fe.express(self.app, name, validator=self._validator(i), lifetime=it['lifetime'],
                                        can_be_prefix=it['cbp'], nonce=1000 + i)
             self.expressed_ok += 1
-            if it.get('await_delay'):
+            if it.get('await_delay') and self.fe.name != 'legacy':
                 # the caller does something else before it awaits the result
                 await asyncio.sleep(it['await_delay'] / 1000)
                 self.trace.append(('awaited', i, self.loop.us))
@@ -383,6 +395,30 @@ def judge(sname, fe_name, run):
         elif got not in allowed:
             viol.append((f'C03|{fe_name}|wrong-outcome|got={cls(got)}|allowed={"/".join(sorted(cls(a) for a in allowed))}',
                          f'Interest {i} of {sname} finished with {got}; acceptable per reference PIT: {sorted(allowed)}'))
+    # a timeout is reported at the deadline (or at once when the result is fetched only after it), not some time later: once
+    # the clock has reached the deadline, the timeout must be out before the ready queue has drained
+    t_expr, t_await = {}, {}
+    for e in run.trace:
+        if e[0] == 'expressed':
+            t_expr[e[1]] = e[2]
+        elif e[0] == 'awaited':
+            t_await[e[1]] = e[2]
+    for i, t0 in t_expr.items():
+        if i not in interests or obs['outcomes'].get(str(i)) != 'timeout':
+            continue
+        # (the legacy front-end sends the Interest when the call is first awaited: its lifetime starts there)
+        start = t0 if fe_name == 'v2' else max(t0, t_await.get(i, 0))
+        due = max(start + interests[i]['lifetime'] * 1000, t_await.get(i, 0))
+        reached = False
+        for e in run.trace:
+            if len(e) > 2 and isinstance(e[2], int) and e[0] in ('fire', 'awaited', 'rx') and e[2] >= due:
+                reached = True
+            if e[0] == 'done' and e[1] == i:
+                break
+            if e[0] == 'quiescent' and reached:
+                viol.append((f'C03|{fe_name}|timeout-late', f'Interest {i} of {sname}: its deadline (+{due} us) passed and the ready queue drained '
+                                                            f'before the timeout was reported'))
+                break
     for tf in obs['task_failures']:
         viol.append((f"C03|{fe_name}|task-error|{tf['exception']}@{tf['where']}",
                      f"background task {tf['task']} ended with unhandled {tf['exception']} at {tf['where']}"))
